@@ -93,7 +93,7 @@ func drawC06(rt *rapid.T, tier string) C06Scenario {
 	}
 	if rapid.IntRange(0, share-1).Draw(rt, "real") == 0 {
 		o := srvDrawOpts{backends: []string{"cdb", "cdb", "rdb1", "rdb2"}, maxClients: 3, maxQueries: 4, maxOps: 5,
-			faults: []string{"missing", "garbage", "nokey", "inject", "lowio", "lowio"}, proc: 3, cleanup: true}
+			faults: []string{"missing", "garbage", "nokey", "inject", "lowio", "lowio"}, proc: 3, cleanup: true, signals: true, periodic: true}
 		sc := drawSrv(rt, o)
 		pos := rapid.IntRange(0, len(sc.Ops)).Draw(rt, "close_at")
 		sc.Ops = append(append([]SrvOp{}, sc.Ops[:pos]...), SrvOp{Kind: "close"})
